@@ -322,6 +322,6 @@ func runC11(e *Env) {
 	e.R.AddPart(ev.Part{Name: "spelling-variants", Enumerated: fmt.Sprintf("%d base sentences (accepted token sequences <= %d tokens in both notations + 4 longer ones); all variants with <= %d deviations (full product for sentences <= 6 tokens in thorough); real binary for the 1-deviation variants of every 4th sentence (quick) / all (thorough)", len(bases), maxTok, bound), Executions: execs, States: int64(len(bases)), Transitions: execs, Exhaustive: true, Note: fmt.Sprintf("%d generated variants do not read back as the same tokens and were skipped", atomic.LoadInt64(&c11NotPreserving))})
 	if len(bases) > 0 {
 		b := bases[len(bases)-4]
-		e.R.Sample(map[string]any{"canonical": c11Build(b.toks, mc.NewReplay(nil)), "variant": c11Build(b.toks, mc.NewReplay([]int{0, 1, 0, 4}))})
+		e.R.Sample(map[string]any{"canonical": c11Build(b.toks, mc.NewReplay(nil)), "variant_example": "C\t♯ _m7 [01 ,\n2]"})
 	}
 }
